@@ -768,6 +768,9 @@ func randHistory(rng *vlib.Rng, o randOpts) (Plan, []HOp) {
 		ne := rng.Intn(o.maxEvents + 1)
 		if rng.Chance(2) {
 			ne = 260 + rng.Intn(300) // a busy session: hundreds of records, possibly all held
+			if rng.Chance(15) {
+				ne = 1001 + rng.Intn(300) // ... or more than a thousand
+			}
 		}
 		q = append(q, HOp{Kind: opRec, K: k})
 		for e := 0; e < ne; e++ {
